@@ -9,6 +9,8 @@ handler running in this thread, and that stack's own receive thread could then r
 import os
 import random
 
+from . import engine
+
 
 def repo_dir():
     from .world import REPO
@@ -32,7 +34,7 @@ def random_tracer(sim, seed, p=0.004, holds=(0.0002, 0.001, 0.002), on=None, cou
             if holding is not None:
                 holding[0] += 1
             try:
-                sim.block_current(until=sim.now + h, jitter=False)
+                sim.block_current(until=sim.now + h, waitobj=engine.HOLD, jitter=False)
             finally:
                 if holding is not None:
                     holding[0] -= 1
